@@ -18,6 +18,8 @@ struct FuncShape {
     params: Vec<usize>,            // indices into TYS
     decls: Vec<(u32, usize)>,      // run-length declarations
     nops: usize,
+    /// the body starts with `block br 0 end` (a branch that can carry a semantic-after probe)
+    branchy: bool,
 }
 
 fn gen_func(r: &mut Rng) -> FuncShape {
@@ -31,7 +33,7 @@ fn gen_func(r: &mut Rng) -> FuncShape {
         let t = if !decls.is_empty() && r.chance(1, 4) { decls.last().unwrap().1 } else { r.below(TYS.len()) };
         decls.push((c, t));
     }
-    FuncShape { params, decls, nops: r.below(3) }
+    FuncShape { params, decls, nops: r.below(3), branchy: false }
 }
 
 fn func_wat(f: &FuncShape, idx: usize) -> String {
@@ -49,6 +51,9 @@ fn func_wat(f: &FuncShape, idx: usize) -> String {
             }
             s.push(')');
         }
+    }
+    if f.branchy {
+        s.push_str(" block br 0 end");
     }
     for _ in 0..f.nops {
         s.push_str(" nop");
@@ -109,9 +114,15 @@ pub fn run(ctx: &mut Ctx) {
         }
         let mut r = Rng::new(ctx.seed, "locals", case);
         let nf = r.range(1, 4);
-        let funcs: Vec<FuncShape> = (0..nf).map(|_| gen_func(&mut r)).collect();
+        let mut funcs: Vec<FuncShape> = (0..nf).map(|_| gen_func(&mut r)).collect();
         let target = r.below(nf);
         let path = PATHS[r.below(PATHS.len())];
+        // one case in four (module paths on an existing function): the module is first instrumented with a semantic-after probe on
+        // a branch and encoded — the lowering declares its own flag local — and only then are the locals added
+        let pre_lower = matches!(path, "modifier" | "modifier_bulk" | "moditer" | "localfn") && r.chance(1, 4);
+        if pre_lower {
+            funcs[target].branchy = true;
+        }
         let nadd = r.weighted(&[1, 3, 3, 2, 2, 1, 1, 1]);
         let mut adds: Vec<usize> = vec![];
         for _ in 0..nadd {
@@ -143,11 +154,15 @@ pub fn run(ctx: &mut Ctx) {
         let builder = path.starts_with("builder");
         // the function the additions go to: an existing one, or a freshly built one
         let bparams: Vec<usize> = if builder { (0..r.below(4)).map(|_| r.below(TYS.len())).collect() } else { vec![] };
-        let (nparams, old_locals): (usize, Vec<u32>) = if builder {
+        let (nparams, mut old_locals): (usize, Vec<u32>) = if builder {
             (bparams.len(), vec![])
         } else {
             (before[target].0.len(), before[target].1.clone())
         };
+        if pre_lower {
+            ctx.count("locals-added-after-a-lowering-encode");
+        }
+        let first_cell: std::cell::RefCell<Option<Vec<u8>>> = std::cell::RefCell::new(None);
         ctx.count(&format!("path={path}"));
         ctx.count(&format!("adds={}", adds.len()));
         ctx.count(&format!("oldlocals={}", old_locals.len().min(6)));
@@ -187,8 +202,18 @@ pub fn run(ctx: &mut Ctx) {
                 Ok((decls, ids, out))
             } else {
                 let mut m = Module::parse(&bytes, false).map_err(|e| format!("parse: {e:?}"))?;
-                let decls = if builder { vec![] } else { stored_decls(&m, target) };
                 let fid = FunctionID(target as u32);
+                if pre_lower {
+                    {
+                        use wirm::opcode::Instrumenter;
+                        let mut fm = m.functions.get_fn_modifier(fid).ok_or("no modifier")?;
+                        // instruction 1 is the `br 0` inside the leading block
+                        fm.semantic_after_at(wirm::Location::Module { func_idx: fid, instr_idx: 1 });
+                        fm.nop();
+                    }
+                    *first_cell.borrow_mut() = Some(m.encode());
+                }
+                let decls = if builder { vec![] } else { stored_decls(&m, target) };
                 match path {
                     "modifier" => {
                         let mut fm = m.functions.get_fn_modifier(fid).ok_or("no modifier")?;
@@ -237,6 +262,17 @@ pub fn run(ctx: &mut Ctx) {
             }
         });
         let add_codes: Vec<u32> = adds.iter().map(|a| TYS[*a].code).collect();
+        // the locals the function has before the additions are those of the first encoding (parsed ones plus the flag local)
+        let mut before = before;
+        if let Some(first) = first_cell.borrow().as_ref() {
+            match decode_funcs(first) {
+                Ok(f1) => {
+                    old_locals = f1[target].1.clone();
+                    before = f1;
+                }
+                Err(e) => panic!("locals: first encoding does not decode: {e}"),
+            }
+        }
         match res {
             Err(p) => {
                 ctx.case_line(&format!("locals {case} nparams={nparams} decls=- adds={}", show_nats(&add_codes)));
